@@ -82,6 +82,9 @@ MUT["C10"] = [
 ]
 
 MUT["C12"] = [
+    dict(id="c12-zero-filled-growth", what="one log array grows with zeros instead of NaN (as in the seeded change)", path=P_FL, functions=[FL + "._expand_arrays"],
+         old="        self.X = np.append(\n            self.X, np.full([resize_amount, self.D], np.nan), axis=0\n        )",
+         new="        self.X = np.pad(self.X, ((0, resize_amount), (0, 0)))", expect="scan::logger::new_log_rows_are_filled_with_nan"),
     dict(id="c12-grow-zero", what="cache grows by floor(Xn/2) (0 at Xn=1)", path=P_FL, functions=[FL + "._expand_arrays"],
          old="resize_amount = int(np.max((np.ceil(self.Xn / 2), 1)))", new="resize_amount = int(np.floor(self.Xn / 2))", expect="grows"),
     dict(id="c12-yorig-shift", what="original value stored one row off", path=P_FL, functions=[FL + "._record"],
@@ -455,9 +458,12 @@ PROPS = {
         native=[dict(name='logger-reference-model', script='logger_model.py', args_quick=['--histories', 150], args_thorough=['--histories', 3000], timeout=1800)],
         replay=dict(script='logger_model.py', args=['--histories', 1500], timeout=1800),
         functions=[FL + "._expand_arrays", FL + "._record", FL + ".__call__"],
+        scans=[lambda index, registry: scans.log_rows_filled_with_nan(index, registry)],
         mutants=MUT["C12"],
         explanation="Data-structure contracts on the log: well-formedness invariant (equal lengths, X_flag[i] <=> i <= Xn, count), new-record clause over the whole view "
-                    "(new row holds (x_orig, x, value), every earlier row of every array unchanged), no-record clause (arrays unchanged), growth clause (prefix preserved, growth >= 1).",
+                    "(new row holds (x_orig, x, value), every earlier row of every array unchanged), no-record clause (arrays unchanged), growth clause (prefix preserved, growth >= 1). "
+                    "The assumed clause nan_tail (unused rows never equal a point; NaN is not modelled for the log) is backed by a syntactic obligation: every allocation / growth of "
+                    "X, X_orig, Y, Y_orig, S fills the new rows with NaN.",
     ),
     "C17": dict(
         level="proof",
